@@ -15,7 +15,7 @@ from ..core import Prop, Result
 from ..simfs import SimFS, Policy
 from .c19 import corpus_files, corpus_text
 
-NOISE = ["", "   ", "\t", "# comment", "#", "  # indented comment", "#~A not a title", "# 1 2 3"]
+NOISE = ["", "   ", "\t", "# comment", "#", "  # indented comment", "#~A not a title", "# 1 2 3", "#---- remark ----", "# 2018-05-22 logged", "#-"]
 PADS = [0, 0, 1, 2, 5]
 
 
@@ -248,7 +248,19 @@ class C09(Prop):
                 return any(not _isnum(c) for r in sec["rows"] for c in r)
         return False
 
-    predicates = {"delimited_text_cell_padding": pred_textpad}
+    def pred_wrapped_hyphen(sc, v, params):
+        """known finding (same defect as F-C12-5): a wrapped file with hyphenated text cells is read correctly only while every
+        physical data line holds a hyphen; re-wrapping changes which lines do"""
+        import re
+        b = sc["base"]
+        if b["kind"] != "doc" or not b["doc"].get("wrap") or not sc["tr"].get("rewrap"):
+            return False
+        for sec in b["doc"]["sections"]:
+            if sec["kind"] == "A":
+                return any((not _isnum(c)) and re.search(r"\d-\d", c) for r in sec["rows"] for c in r)
+        return False
+
+    predicates = {"delimited_text_cell_padding": pred_textpad, "rewrapped_hyphenated_text": pred_wrapped_hyphen}
     quick = {"runs": 12000, "wall": 60}
     thorough = {"runs": 200000, "wall": 900}
 
@@ -274,9 +286,11 @@ class C09(Prop):
             textcol = g.random() < 0.15
             nc = g.randint(2 if wrap else 1, 8)
 
-            def cell(i, j):
+            tstyle = g.choice(["T%d", "T%d", "2018-05-%02d", "7-%d"])
+
+            def cell(i, j, tstyle=tstyle):
                 if textcol and j == nc - 1 and nc > 1:
-                    return "T%d" % i
+                    return tstyle % (i + 1)
                 return "%.3f" % (i * 0.5 if j == 0 else (i * 10 + j) * 1.25 * (-1 if (i + j) % 3 == 0 else 1))
             doc = docmodel.std_doc(g, ncurves=nc, nrows=g.choice([1, 1, 2, 3, 5, 22, 25]) if g.random() < 0.8 else g.randint(1, 30),
                                    wrap=wrap, custom=g.choice([0, 0, 1, 2]), cell=cell)
